@@ -44,20 +44,21 @@ Inductive ccase :=
 | CSv (nw : nat) (gs : list gate_z) (exp : list (Z * Z))
 (** a sequence of builder calls on an initially empty circuit, then as_matrix *)
 | CBuild (nw : nat) (ops : list bop) (exp : dm)
-(** a history of constructor calls, builder calls and mutations: the values denoted by all
-    circuits and by all caller objects afterwards *)
+(** a history of gate constructions, circuit constructions (empty / from a list of caller objects),
+    builder calls and mutations (of caller objects and through a circuit's own gate list): the values
+    denoted by all circuits and by all caller objects afterwards *)
 | CHist (es : list event) (circs : list (list gval)) (hs : list gval).
 
-Definition check_with (deep : nat -> bool) (c : ccase) : bool :=
+Definition check_with (ctor : bool) (deep : nat -> bool) (c : ccase) : bool :=
   match c with
   | CCirc nw gs exp => zmat_eqb (cm_dense nw gs) exp
   | CSv nw gs exp => list_eqb zi_eqb (sv_dense nw gs) exp
   | CBuild nw ops exp => zmat_eqb (cm_dense nw (fold_left apply_bop ops [])) exp
   | CHist es circs hs =>
-      let s := run deep es in
+      let s := run deep ctor es in
       list_eqb (list_eqb gval_eqb) (map (map erase) (circuits s)) circs
       && list_eqb gval_eqb (map erase (handles s)) hs
   end.
 
-Definition bad_cases_with (deep : nat -> bool) (cs : list (nat * ccase)) : list nat :=
-  map fst (filter (fun c => negb (check_with deep (snd c))) cs).
+Definition bad_cases_with (ctor : bool) (deep : nat -> bool) (cs : list (nat * ccase)) : list nat :=
+  map fst (filter (fun c => negb (check_with ctor deep (snd c))) cs).
